@@ -284,8 +284,12 @@ func (w *World) panicSites() []panicSite {
 						if bound == nil {
 							continue
 						}
-						if src := searchResultIn(bound, 0); src != nil && !searchChecked(src, bound, x.Block(), 0) {
-							add(fn, "slice-bound", calleeName(src)+" result used as slice bound without a -1 test", x.Pos())
+						// every search result that flows into the bound must have been tested
+						for _, src := range searchResultsIn(bound, 0, map[ssa.Value]bool{}) {
+							if !searchChecked(src, bound, x.Block(), 0) {
+								add(fn, "slice-bound", calleeName(src)+" result used as slice bound without a -1 test", x.Pos())
+								break
+							}
 						}
 					}
 				}
@@ -395,6 +399,32 @@ func reflectValueSafe(v ssa.Value, b *ssa.BasicBlock) bool {
 		}
 	}
 	return false
+}
+
+// searchResultsIn: all search calls whose result flows (through arithmetic, conversions,
+// phis) into v.
+func searchResultsIn(v ssa.Value, depth int, seen map[ssa.Value]bool) []*ssa.Call {
+	if depth > 5 || v == nil || seen[v] {
+		return nil
+	}
+	seen[v] = true
+	switch x := v.(type) {
+	case *ssa.Call:
+		if c := searchResultIn(x, 0); c != nil {
+			return []*ssa.Call{c}
+		}
+	case *ssa.BinOp:
+		return append(searchResultsIn(x.X, depth+1, seen), searchResultsIn(x.Y, depth+1, seen)...)
+	case *ssa.Convert:
+		return searchResultsIn(x.X, depth+1, seen)
+	case *ssa.Phi:
+		var out []*ssa.Call
+		for _, e := range x.Edges {
+			out = append(out, searchResultsIn(e, depth+1, seen)...)
+		}
+		return out
+	}
+	return nil
 }
 
 // searchResultIn: the bound is (an arithmetic function of) the result of a search that
